@@ -16,7 +16,11 @@ RULE = ("workloads of 2-4 session threads with different identities and protocol
         "the lock, the access-control choke point, every commit and the protocol-version switch (seeded yields); the "
         "order in which requests obtained the engine lock is recorded; responses per thread and the final store must "
         "equal the serial execution of that order computed by the Lean model, and (when no lock order is observable) "
-        "of SOME merge of the per-thread sequences; non-trivial = a schedule in which at least two threads overlapped "
+        "of SOME merge of the per-thread sequences; in half of the workloads one more session is busy answering "
+        "undecodable / refused frames: it calls the engine's other session-facing entry point (build_error_response, "
+        "as session.py does outside process_request) in a loop while the others are being served - its answers must be "
+        "error responses and must not disturb the serial reading of the others; "
+        "non-trivial = a schedule in which at least two threads overlapped "
         "(a thread waited for the lock); distinct = distinct (workload, acquisition order)")
 ASSUMPTIONS = ["CPython thread scheduling and SQLite/SQLAlchemy thread-safety with check_same_thread=False are "
                "exercised, not modelled", "cryptography backend scripted"]
@@ -162,10 +166,41 @@ def run_threads(seed):
             except Exception as e:
                 errs.append(repr(e))
         ths = [threading.Thread(target=worker, args=(i,), name="T%d" % i) for i in range(len(threads))]
+        # a session that only ever gets error responses (malformed frames, refused versions): session.py builds
+        # them through engine.build_error_response, outside process_request
+        stop_noise = threading.Event()
+        noise_stats = {"calls": 0, "bad": 0}
+
+        def noise():
+            from kmip.core.messages import contents
+            barrier.wait()
+            while not stop_noise.is_set():
+                try:
+                    r = eng.build_error_response(contents.ProtocolVersion(1, rnd.choice([0, 1, 2, 3, 4])),
+                                                 impl_engine.enums.ResultReason.INVALID_MESSAGE,
+                                                 "Error parsing request message. See server logs for more information.")
+                    noise_stats["calls"] += 1
+                    bi = r.batch_items[0]
+                    if len(r.batch_items) != 1 or bi.result_status.value != impl_engine.enums.ResultStatus.OPERATION_FAILED:
+                        noise_stats["bad"] += 1
+                except Exception as e:
+                    noise_stats["bad"] += 1
+                    errs.append("noise: " + repr(e))
+                time.sleep(0)
+        with_noise = (seed % 2 == 1)
+        if with_noise:
+            barrier = threading.Barrier(len(threads) + 1)
+            nt = threading.Thread(target=noise, name="N")
+            nt.start()
         for t in ths:
             t.start()
         for t in ths:
             t.join(60)
+        if with_noise:
+            stop_noise.set()
+            nt.join(10)
+            if noise_stats["bad"]:
+                errs.append("noise session: %d answers were not one-item error responses" % noise_stats["bad"])
         sys.setswitchinterval(old)
         dump = E.dump()
         return prefix, threads, outs, [int(n[1:]) for n in order], dump, lock.waited, errs
